@@ -10,25 +10,25 @@ props = [json.loads(l) for l in open(os.path.join(HERE, "properties.jsonl"))]
 SCHED = "sched"
 CLAIMS = {
  "C01": ("seqmc", "explicit-state breadth-first search over the real index (state = physical tree dump), run to the fixpoint per key universe, against a std::map reference",
-   "For every key universe (uint64 geometry G1-G4, byte strings of 1/3/8/12 bytes, encoder-built text and compound keys) and each of db, mutex_db, olc_db: every reachable implementation state and every transition of the alphabet {insert(k,v), remove(k), clear} over the delta keys is executed on a fresh real object and checked (result, stored content, get of every universe and probe key, empty, value views obtained before the operation re-read after it under AddressSanitizer). Because the search closes the state graph, the claim per universe is all finite operation sequences, not sequences up to a depth.",
+   "For every key universe (uint64 geometry G1-G4, byte strings of 1/3/8/12 bytes, encoder-built text and compound keys) and each of db, mutex_db, olc_db: every reachable implementation state and every transition of the alphabet {insert(k,v), remove(k), clear} over the delta keys is executed on a fresh real object and checked (result, stored content, get of every universe and probe key, empty, value views obtained before the operation re-read after it under AddressSanitizer). Because the search closes the state graph, the claim per universe is all finite operation sequences, not sequences up to a depth. The OLC clause about views (valid at least until the caller's next quiescent state) is checked by an engine-A part: 366 sequential programs (get, then a removal or restructuring operation by the same thread, then the view is re-read) next to an idle registered thread, on every base tree including all node-size boundaries.",
    "Universes are finite and designed (base + 5-8 delta keys; every structural event x node position); behaviour is assumed to be a function of the physical dump; stale prefix bytes and stale array entries are excluded from the state identity (argument in DESIGN.md section 3); deep shared prefixes (>= 8 bytes) are a recorded known finding."),
  "C02": ("seqmc", "explicit-state search over the real index + exhaustive scan enumeration (all bounds x directions x halting positions) on every state against a sorted-vector reference",
    "On every reachable implementation state of every universe and index class: scan fwd/rev with the visitor halting at every position, scan_from for every bound of the generated bound set (universe keys, +-1 neighbours, every byte position forced to 00/FF with the tail zeroed/filled) in both directions, scan_range over all ordered pairs of a reduced bound set, byte-string bounds in both buffer address orders; exact (key, value) sequence compared, no visitor call after it returned true.",
    "As C01; bounds come from the generated finite set; variable-length byte-string universes use universe keys and probes as bounds."),
  "C03": (SCHED, "exhaustive preemption-bounded schedule exploration of real threads + brute-force linearizability check",
-   "Every interleaving (hooked atomic accesses as scheduling points) of ~1250 (quick) / ~2500 (thorough) generated 2-3 thread scenarios on the real olc_db with at most 1-3 preemptions is executed; for each execution the stamped call/return history and the final content are checked against all sequential orders of a std::map. Bounded model checking of the implementation itself: every explored trace is an implementation trace.",
+   "Every interleaving (hooked atomic accesses as scheduling points) of ~2100 (quick) / ~3400 (thorough) generated 2-3 thread scenarios on the real olc_db with at most 1-3 preemptions is executed; for each execution the stamped call/return history and the final content are checked against all sequential orders of a std::map. Bounded model checking of the implementation itself: every explored trace is an implementation trace.",
    "Sequentially consistent interleavings only; uint64 keys; 2-3 threads with 1-2 point operations each; preemption bound per scenario recorded in the evidence; scheduler, hook placement and harness are trusted."),
  "C04": (SCHED, "exhaustive preemption-bounded schedule exploration with allocation-table, reachability and AddressSanitizer oracles",
-   "Same exploration as C03/C09 on scenarios whose writers retire nodes, with quiescent states placed so that epochs really advance and memory is really freed while readers run; every hooked access is checked against the live-block table, every free against reachability from the root, every held value view is re-read before the holder's quiescent state, ASan watches all plain accesses, and after the drain live blocks must equal reachable nodes.",
+   "Same exploration as C03/C09 on scenarios whose writers retire nodes, with quiescent states placed so that epochs really advance and memory is really freed while readers run; every hooked access is checked against the live-block table, every free against reachability from the root, every held value view is re-read before the holder's quiescent state, ASan watches all plain accesses, and after the drain live blocks must equal reachable nodes. Families: reader x writer with quiescent-state placements, reader x remover x idle leaver, reader x remover x thread joining during the epoch change (staged with barrier operations), writer x writer pairs, three-thread sets, and every node-size boundary (4/5, 16/17, 48/49, 256).",
    "Sequentially consistent interleavings; bounds as reported; ASan's shadow memory is trusted for plain accesses."),
  "C05": (SCHED, "exhaustive deviation-bounded schedule exploration of real threads driving the real QSBR + may-hold contract oracle",
-   "All schedules (every QSBR atomic a scheduling point) of a 4-thread role family (holder / retirer / leaver / joiner, 22 program sets, delay bound 3 quick, 4 thorough) and of all 2-thread program sets over {quiescent, retire, pause, resume/start, exit} up to length 2 (3 thorough) with at most 3 (4) preemptions; at every free notification the object must not be in the may-hold set of any thread other than the requester.",
+   "All schedules (every QSBR atomic a scheduling point) of a 4-thread role family (holder / retirer / leaver / joiner, 22 program sets, delay bound 3 quick, 4 thorough) and of all 2-thread program sets over {quiescent, retire, pause, resume/start, exit} up to length 2 (3 thorough) with at most 3 (4) preemptions, a joiner family (a sole registered thread mid quiescent state while two others start) and a rounds family (holder x retirer x third thread staged through complete epoch changes by barrier operations) at bound 2 (3); at every free notification the object must not be in the may-hold set of any thread other than the requester.",
    "Sequentially consistent interleavings; programs and bounds as reported; the oracle is the QSBR contract on call/return events, independent of internals."),
  "C06": (SCHED, "exhaustive deviation-bounded schedule exploration + exactly-once / three-round / thread-count monitors",
-   "All schedules of 3-thread program sets (length <= 2) and of a family in which threads exit or pause with pending requests while another thread changes the epoch, each followed by a deterministic drain (three rounds in which every registered thread quiesces, then all but one leave, then the survivor quiesces twice); monitors: every retired block freed exactly once, freed by the end of round three, nothing pending after the drain, and at every scheduling point with no start/exit/pause/resume in flight the reported thread count equals the driver's count.",
+   "All schedules of 3-thread program sets (length <= 2), of families in which threads exit or pause with pending requests while another thread changes the epoch (including two leavers inside one epoch change, staged with barrier operations) and of a retire-twice family, each followed by a deterministic drain (three rounds in which every registered thread quiesces, then all but one leave, then the survivor quiesces twice); monitors: every retired block freed exactly once, freed by the end of round three, nothing pending after the drain, and at every scheduling point with no start/exit/pause/resume in flight the reported thread count equals the driver's count.",
    "As C05."),
  "C08": ("seqmc", "explicit-state search + exhaustive fault-position enumeration (every k-th allocation of every allocating transition fails) with before/after state comparison",
-   "Assertion-enabled build (the library's own allocation-failure injector): for every transition of the state graph of the universes that contain every allocation pattern, the allocations of the operation are counted and then, for each k, the k-th one is failed; std::bad_alloc must reach the caller and tree dump, full scans, statistics, live allocation set and locks must be unchanged, and the unarmed retry must give the reference result. Plus qsbr_resume, qsbr_thread construction and on_next_epoch_deallocate with two registered threads (each allocation failed once) and std::length_error for keys/values longer than UINT32_MAX.",
+   "Assertion-enabled build (the library's own allocation-failure injector): for every transition of the state graph of the universes that contain every allocation pattern, the allocations of the operation are counted and then, for each k, the k-th one is failed; std::bad_alloc must reach the caller and tree dump, full scans, statistics, live allocation set and locks must be unchanged, and the unarmed retry must give the reference result. Plus qsbr_resume and qsbr_thread construction (each allocation failed once), on_next_epoch_deallocate after every history over {request, own quiescent state, other thread's quiescent state} up to length 6 (9 thorough) with each allocation failed once and the complete per-thread QSBR state compared, and std::length_error for keys/values longer than UINT32_MAX.",
    "One fault per operation; failures inside std::stack growth of scans are outside; QSBR part covers the three entry points named in the statement."),
  "C09": (SCHED, "exhaustive preemption-bounded schedule exploration + interval/order/stable-key scan oracle",
    "One scanner (scan, scan_from, scan_range, both directions, with and without early halt) against one writer (thorough: two writers / two scanners) restructuring nodes on the scanner's stack; all schedules up to the bound; visited keys must be strictly monotone, inside the interval, carry a value the key held during the scan, contain every stable key and no stable-absent key.",
@@ -37,7 +37,7 @@ CLAIMS = {
    "On every state of every universe and index class: logical shape equals the canonical path-compressed radix tree computed independently from the reference key set (this is history independence: several implementation states per key set, one logical shape), node counts per class and reported memory use equal that tree's, bytes held per alloc/free hooks equal the reported use, zero after clear/destruction; per transition the growing/shrinking counter deltas equal the delta predicted from the canonical trees before/after. The concurrent clause (after a concurrent phase, once all threads quiesced) is checked in every engine-A execution of C03/C04/C09/C14.",
    "As C01."),
  "C14": (SCHED, "exhaustive preemption-bounded schedule exploration with deadlock/livelock verdicts and post-execution lock sweep",
-   "Three-writer, writer/writer two-operation and writer/scanner/writer scenarios explored under every schedule up to the bound; the scheduler reports a deadlock when no thread is enabled or the only enabled threads repeat an observation cycle over unchanged memory, a livelock when the step budget is exceeded; after each execution no reachable lock word may be locked and a single-threaded scheduled sweep over all keys must terminate with the right results. The same oracles are on in every C03/C04/C09 execution; the fault clause (no lock left after a throwing operation) is checked by the C08 fault enumeration.",
+   "Every pair of single writer operations on ten base trees plus three-writer, writer/writer two-operation and writer/scanner/writer scenarios explored under every schedule up to the bound; the scheduler reports a deadlock when no thread is enabled or the only enabled threads repeat an observation cycle over unchanged memory, a livelock when the step budget is exceeded; after each execution no reachable lock word may be locked and a single-threaded scheduled sweep over all keys must terminate with the right results. The same oracles are on in every C03/C04/C09 execution; the fault clause (no lock word, locked or obsolete, left reachable after a throwing operation; scans and retry terminate) is checked by engine B's fault enumeration on olc_db over the C08 universes, as part of this check.",
    "Fairness is modelled by run-to-completion after the preemption budget and round-robin at voluntary yields; bounds as reported."),
  "C16": ("seqmc", "the same explicit-state search executed in all 16 build configurations, transcripts compared; assertion aborts attributed to the executing history",
    "Engine B (complete scan bound set, scans also run on the very object that is then mutated) is built in {AVX2, SSE4.1} x {stats, no stats} x {assertions, NDEBUG} x {PAUSE, EMPTY} for db, mutex_db and olc_db; the search order is a function of what the implementation returns, so agreeing configurations produce identical transcripts (every result, scan output and shape), which are compared across the 16, counters across the 8 with statistics; every assertion-enabled process must terminate normally.",
